@@ -1,9 +1,80 @@
-(* C01 -- parse, serialise, parse is stable and lossless.  Statements only (grown as proofs are added). *)
-Require Import Lib.Base Gen.Gen_parser Gen.Gen_cal Model.Params Model.Contentline Model.Tree.
+(* C01 -- parse, serialise, parse is stable and lossless.  Statements only.
+   Trees are [comp] (Model/Tree.v): name, insertion-ordered properties (name -> one value or a
+   list), subcomponents, error list; a typed value is (class name, parameters, wire text).
+   [parse dec cache multiple text] is Component.from_ical over a value decoder [dec] (the codecs:
+   C03/C07/C19) and the recorded time-zone cache outcomes; [ser sorted t] is Component.to_ical.
+   [tree_ok dec sorted t] is the boolean guard: names are upper-case tokens, property names
+   pairwise different, and for every value: its content line splits back into the same name and
+   parameters (the C05 guards), it has the class its property name selects, and the decoder maps
+   what Contentline.parts makes of its wire text back to a value with the same wire text.  [norm sorted t] = properties in emission order, canonical parameters, one-element
+   lists as single values, no error list.  [tree_upper]: parameter names stored upper-case. *)
+Require Import Lib.Base Lib.Chain Gen.Gen_parser Gen.Gen_cal Model.Text Model.Params Model.Fold Model.Contentline Model.Tree.
+Require Import Proofs.LinesProofs Proofs.TreeProofs.
 
-(* every registered component class is found under its own name *)
+(* parsing the serialisation of ANY tree inside the guard, for ANY decoder, gives its normal form *)
+Theorem C01_reparse : forall dec sorted multiple t text, tree_ok dec sorted t = true ->
+  ser sorted t = Ok text -> parse dec [] multiple text = Ok [norm sorted t].
+Proof. exact reparse. Qed.
+Print Assumptions C01_reparse.
+
+(* the normal form serialises to the same text (hence the same octets) *)
+Theorem C01_ser_norm : forall dec sorted t, tree_ok dec sorted t = true -> tree_upper t = true ->
+  ser sorted (norm sorted t) = ser sorted t.
+Proof. exact ser_norm. Qed.
+Print Assumptions C01_ser_norm.
+
+(* stability: parse(serialise(t)) is the normal form of t and serialises to identical bytes *)
+Theorem C01_stable : forall dec sorted multiple t text, tree_ok dec sorted t = true -> tree_upper t = true ->
+  ser sorted t = Ok text ->
+  exists t', parse dec [] multiple text = Ok [t'] /\ t' = norm sorted t /\ ser sorted t' = Ok text.
+Proof. exact stable. Qed.
+Print Assumptions C01_stable.
+
+(* Contentlines.from_ical inverts Contentlines.to_ical (folding, CRLF joining) on every list of lines
+   without LF that begin with a name character -- every line of every serialised component (C06) *)
+Theorem C01_lines_roundtrip : forall ls, forallb good_line ls = true ->
+  contentlines_from_ical (contentlines_to_ical ls) = ls.
+Proof. exact lines_roundtrip. Qed.
+Print Assumptions C01_lines_roundtrip.
+
+(* sorting the emission order twice changes nothing (serialisation order is a function of the key set) *)
+Theorem C01_canonsort_idem : forall keys canon,
+  canonsort_keys (canonsort_keys keys canon) canon = canonsort_keys keys canon.
+Proof. exact canonsort_idem. Qed.
+Print Assumptions C01_canonsort_idem.
+
+(* every registered component class is found under its own name (generated table) *)
 Theorem C01_classes_registered :
   forallb (fun c => match class_of (cc_name c) with Some c' => str_eqb (cc_name c') (cc_name c) | None => false end)
           component_classes = true.
 Proof. vm_compute. reflexivity. Qed.
-Print Assumptions C01_classes_registered.
+
+(* outside the guard (value text with an escaped comma after an escaped backslash): the second
+   serialisation differs from the first -- known finding C01-F1 *)
+Definition ex_bad : comp :=
+  Comp (s2l "VEVENT") [(s2l "URL", One {| v_class := s2l "vUri"; v_params := []; v_text := [97; 92; 92; 92; 44; 98] |})] [] [].
+Definition ex_bad_text : list N := Eval vm_compute in match ser true ex_bad with Ok x => x | _ => [] end.
+Definition ex_bad_t2 : comp := Eval vm_compute in match parse dec_basic [] false ex_bad_text with Ok [c] => c | _ => ex_bad end.
+Theorem C01_refuted :
+  ser true ex_bad = Ok ex_bad_text /\ parse dec_basic [] false ex_bad_text = Ok [ex_bad_t2] /\ ser true ex_bad_t2 <> Ok ex_bad_text.
+Proof. split; [vm_compute; reflexivity|]. split; [vm_compute; reflexivity|]. vm_compute. discriminate. Qed.
+
+(* non-vacuity: a nested tree with TEXT (escaped comma, semicolon, newline), URI, multi-valued and
+   parameterised properties is inside the guards, and the theorem's conclusion is observed on it *)
+Definition ex_txt (s : list N) : value := {| v_class := s2l "vText"; v_params := []; v_text := s |}.
+Definition ex_good : comp :=
+  Comp (s2l "VCALENDAR")
+    [(s2l "PRODID", One (ex_txt (s2l "-//x//EN"))); (s2l "VERSION", One (ex_txt (s2l "2.0")))]
+    [Comp (s2l "VEVENT")
+       [(s2l "SUMMARY", One (ex_txt (s2l "a\, b\; c\nd")));
+        (s2l "ATTENDEE", Many [{| v_class := s2l "vCalAddress"; v_params := [(s2l "CN", PStr (s2l "Doe, J")); (s2l "ROLE", PStr (s2l "CHAIR"))]; v_text := s2l "mailto:j@x" |};
+                               {| v_class := s2l "vCalAddress"; v_params := []; v_text := s2l "mailto:k@x" |}]);
+        (s2l "URL", One {| v_class := s2l "vUri"; v_params := []; v_text := s2l "http://x/?a=b;c" |})]
+       [Comp (s2l "X-SUB") [(s2l "X-P", One (ex_txt (s2l "v")))] [] []] []] [].
+Definition ex_good_text : list N := Eval vm_compute in match ser true ex_good with Ok x => x | _ => [] end.
+Example C01_nonvacuous_guard : tree_ok dec_basic true ex_good && tree_upper ex_good = true.
+Proof. vm_compute. reflexivity. Qed.
+Example C01_nonvacuous_ser : ser true ex_good = Ok ex_good_text.
+Proof. vm_compute. reflexivity. Qed.
+Example C01_nonvacuous_parse : parse dec_basic [] false ex_good_text = Ok [norm true ex_good].
+Proof. vm_compute. reflexivity. Qed.
